@@ -898,3 +898,15 @@ M("C01", "benign-chunked-body-write", "benign",
 M("C01", "chunked-write-encode-in-loop", "breaking",
   [(P, SR, "        if body:\n            self.transport.write(body)\n", "        text = response.body if isinstance(response.body, str) else ''\n        for offset in range(0, len(text), 65536):\n            self.transport.write(text[offset : offset + 65536].encode('utf-8'))\n")],
   "W2:server.protocol:GeminiServerProtocol._send_response:may-raise-after-write")
+_PHASE = [
+  (P, "GeminiServerProtocol.__init__", "        self.awaiting_titan_content = False\n", "        self.phase = \"line\"\n"),
+  (P, DR, "        if self.awaiting_titan_content and self.titan_request:\n", "        if self.phase == \"content\" and self.titan_request:\n"),
+  (P, DR, "                self.awaiting_titan_content = False\n", "                self.phase = \"done\"\n"),
+  (P, "GeminiServerProtocol._handle_titan_url", "            self.awaiting_titan_content = True\n", "            self.phase = \"content\"\n"),
+  (P, "GeminiServerProtocol._handle_titan_url", "                self.awaiting_titan_content = False\n", "                self.phase = \"done\"\n"),
+]
+M("C07", "benign-phase-string-instead-of-flag", "benign", _PHASE)
+M("C01", "benign-phase-string-instead-of-flag", "benign", _PHASE)
+M("C07", "phase-string-not-advanced", "breaking",
+  [e for e in _PHASE if e[1] != DR or "if self.phase" in e[3]] + [(P, DR, "                self.awaiting_titan_content = False\n", "")],
+  "S1:server.protocol:GeminiServerProtocol.data_received:double-dispatch")
